@@ -19,7 +19,7 @@ CLAIMED = {
          TB + "Reference table spec/wire_codes.json (shape from the property text; code bytes frozen from the pinned tree).", "DESIGN.md 4 C04"),
  "C05": ("proof", "A1 decision-table extraction over MIR + table composition",
          "Every row of the extracted Message->Frame table (all variants x 13 states x 6 operations) is pushed through the extracted Frame->Message table for every data-length class; the result must be the original message term; wire keys are pairwise distinct.",
-         TB + "Claimed modulo C01 for the frame<->bytes leg.", "DESIGN.md 4 C05"),
+         TB + "Lemma L1 for the frame<->bytes leg (C01's rule set is run as part of this check).", "DESIGN.md 4 C05"),
  "C06": ("proof", "A2 guard-ordering rules + A7 canonical forms + A3 bit-mask shapes + A5 who-writes + A4 panic inventory on the Page accessors",
          "Decides the structural clauses: every returning path of get_pixel/set_pixel admits exactly x < width and y < height (orderings of the compared pairs) and every other path ends in the bounds panic before any write; the addressed byte is 4 + x*ceil(h/8) + floor(y/8) and the mask 1 << (y % 8) in canonical form; get reads (b & mask) == mask, set performs exactly one store b|mask / b&!mask; set_all_pixels fills exactly [4, data_bytes) with 0xFF/0x00; no other code takes &mut to Page.bytes or assigns width/height or constructs a Page; in-bounds calls reach no undischarged panic site. Non-interference between pixels is lemma L3 (code-independent).",
          TB + "Lemma L3; Page invariant.", "DESIGN.md 4 C06"),
@@ -67,8 +67,19 @@ CLAIMED = {
          TB, "DESIGN.md 4 C19"),
 }
 REASONS = {}
+# clauses of a property that are another property's subject are decided by running that rule set as part of this check
+INCLUDES = {
+    "C02": "Also runs C15's rules on Frame::read (the second decoding entry point hands the unmodified line to from_bytes), as C02.read(..).",
+    "C05": "The frame<->bytes leg is decided by running C01's codec rule set as part of this check, as C05.wire(..).",
+    "C08": "The data plane is decided by running the component rule sets as part of this check: C09.O2-O4 (chunking), C13.O2 (reassembly), C07.O1/O3 (page length), as C08.data(..).",
+    "C13": "What a complete page of the configured size is (Page::from_bytes / Page::new, C07.O1/O3) is decided here too, as C13.page(..).",
+    "C16": "Frame::write / Frame::read themselves (exactly the frame's encoding with CRLF, exactly one line, errors surfaced) are decided by running C15's rule set here too, as C16.io(..).",
+    "C17": "The byte-stream leg (Frame::read / Frame::write) is decided by running C15's rule set here too, as C17.io(..).",
+}
 checks = []
 for pid, (lvl, tech, text, note, ref) in CLAIMED.items():
+    if pid in INCLUDES:
+        text = text + " " + INCLUDES[pid]
     checks.append({"property_id": pid, "quick_cmd": "./check %s --tier quick" % pid, "thorough_cmd": "./check %s --tier thorough" % pid,
                    "evidence_file": "evidence/%s.json" % pid, "replay_cmd_template": "./check %s --tier quick  # the replay file {path} names the construct and rule" % pid,
                    "engine": "mirfacts+sa", "level_claimed": {"category": lvl, "text": text, "design_ref": ref}, "level_note": note, "technique": tech})
